@@ -130,6 +130,30 @@ pub fn stack_builtin_grammar() -> String {
     out
 }
 
+/// Sub-input family (C08, C09): rules whose outcome is sensitive to where the input ends or
+/// starts: skip-until needles, literals and ranges that could straddle a cut, SOI / EOI in
+/// non-initial positions, multi-byte characters.
+pub fn subinput_grammar() -> String {
+    [
+        "until2 = @{ (!(\"XY\") ~ ANY)* }",
+        "until_wrapped = @{ \"a\" ~ (!(\"Xb\" | \"bY\") ~ ANY)* ~ (\"Xb\" | \"bY\") }",
+        "until_then = @{ (!(\"YX\") ~ ANY)* ~ \"YX\"? ~ \"a\"* }",
+        "eoi_mid = { \"a\"* ~ (EOI ~ \"\" | \"b\") }",
+        "soi_mid = { \"a\"? ~ (SOI ~ \"X\" | \"Y\") }",
+        "lit = { \"abX\" | \"ab\" | \"a\" }",
+        "ins = { ^\"abé\" | ^\"ab\" | ^\"x\" }",
+        "multi = { (\"é\" | \"中\" | \"😀\" | \"a\")* ~ \"X\"? }",
+        "rng = { ('a'..'b')+ ~ 'X'..'Y'? }",
+        "nl = { (NEWLINE | \"a\")* }",
+        "peekr = { PUSH(\"a\"+) ~ \"X\" ~ PEEK }",
+        "anyn = { ANY ~ ANY ~ ANY? }",
+        "notp = { (!\"ab\" ~ ANY)* }",
+        "seqws = { \"a\" ~ \"b\" ~ \"X\"? }",
+        "WHITESPACE = _{ \" \" }",
+    ]
+    .join("\n")
+}
+
 pub fn build(seed: u64, tier: Tier) -> Corpus {
     let mut specs = vec![];
     let mut stats = GenStats::default();
@@ -156,6 +180,11 @@ pub fn build(seed: u64, tier: Tier) -> Corpus {
     let (lo, hi) = tier.pick((-3, 3), (-6, 6));
     specs.push(Spec::new("slice", "slice", &slice_grammar(lo, hi)));
     specs.push(Spec::new("stackbuiltin", "slice", &stack_builtin_grammar()));
+    {
+        let mut s = Spec::new("subinput", "subinput", &subinput_grammar());
+        s.forms = true;
+        specs.push(s);
+    }
     for (id, path) in REPO_GRAMMARS {
         if let Ok(text) = std::fs::read_to_string(path) {
             if Grammar::parse(&text).is_ok() {
@@ -175,6 +204,28 @@ pub fn build(seed: u64, tier: Tier) -> Corpus {
                     s.options = rep["options"].as_array().map(|a| a.iter().filter_map(|x| x.as_str().map(String::from)).collect()).unwrap_or_default();
                     specs.push(s);
                 }
+            }
+        }
+    }
+    // grammars of the saved replays (regression tier)
+    let mut files = vec![];
+    if let Ok(rd) = std::fs::read_dir(std::path::Path::new(crate::common::VERIF_ROOT).join("replays")) {
+        for d in rd.flatten() {
+            if let Ok(rd2) = std::fs::read_dir(d.path()) {
+                files.extend(rd2.flatten().map(|e| e.path()).filter(|p| p.extension().map(|x| x == "json").unwrap_or(false)));
+            }
+        }
+    }
+    files.sort();
+    for (k, f) in files.iter().enumerate() {
+        if let Some(doc) = std::fs::read_to_string(f).ok().and_then(|t| serde_json::from_str::<Value>(&t).ok()) {
+            let text = doc["grammar"]["text"].as_str().unwrap_or("");
+            let opts: Vec<String> = doc["grammar"]["options"].as_str().unwrap_or("").split(',').filter(|x| !x.is_empty()).map(String::from).collect();
+            if Grammar::parse(text).is_ok() && !specs.iter().any(|s| s.text == text && s.options == opts) {
+                let mut s = Spec::new(&format!("rp{:03}", k), "regression", text);
+                s.forms = true;
+                s.options = opts;
+                specs.push(s);
             }
         }
     }
